@@ -996,6 +996,8 @@ static void sptr_program(uint64_t seed)
   size_t used        = static_cast<size_t>(r.range(2, N));
   int live0[2]       = {Obj::live[0], Obj::live[1]};
   {
+    // objects that aliasing handles point at: they outlive every handle of the program
+    std::vector<std::pair<std::shared_ptr<Obj>, std::shared_ptr<Obj>>> targets;
     nostd::shared_ptr<Obj> a[N];
     std::shared_ptr<Obj> b[N];
     // owners outside the handles: std::shared_ptr copies handed in, Derived-typed handles
@@ -1054,7 +1056,29 @@ static void sptr_program(uint64_t seed)
       h             = vf::mix(h, kind * 64 + i * 8 + j);
       std::string opn;
       R.count("sptr_ops");
-      if (kind < 12)
+      if (kind >= 97 && i != j)
+      {
+        // Two handles with the SAME stored pointer but DIFFERENT owners (built from std::shared_ptr aliasing
+        // constructors - the only way in), then one is copy-assigned to the other: the target must drop its old
+        // owner and co-own the source's, exactly like std::shared_ptr (from seeded change C20-w6-2)
+        int idt = next_id++, id1 = next_id++, id2 = next_id++;
+        targets.emplace_back(std::shared_ptr<Obj>(mk(0, idt, false)), std::shared_ptr<Obj>(mk(1, idt, false)));
+        Obj *tn = targets.back().first.get(), *ts = targets.back().second.get();
+        {
+          std::shared_ptr<Obj> o1n(mk(0, id1, false)), o2n(mk(0, id2, false)), o1s(mk(1, id1, false)), o2s(mk(1, id2, false));
+          a[i] = nostd::shared_ptr<Obj>(std::shared_ptr<Obj>(o1n, tn));
+          b[i] = std::shared_ptr<Obj>(o1s, ts);
+          a[j] = nostd::shared_ptr<Obj>(std::shared_ptr<Obj>(o2n, tn));
+          b[j] = std::shared_ptr<Obj>(o2s, ts);
+        }
+        trace += " alias-pair(" + std::to_string(i) + "," + std::to_string(j) + ")";
+        check("aliasing-owners");
+        opn  = "copy-assign-same-pointer-other-owner";
+        a[i] = a[j];
+        b[i] = b[j];
+        R.count("sptr_alias_pair_assignments");
+      }
+      else if (kind < 12)
       {
         int id   = next_id++;
         bool der = r.coin();
